@@ -39,6 +39,9 @@ def configs(tier):
                         out.append(dict(spec=sp, grid=g, safe=safe, bound=2, kind='run', route='edited'))
             for safe in (False, True):
                 out.append(dict(spec=sp, grid='u3', safe=safe, bound=2, kind='bfs', start_repr='strided' if safe else 'int'))
+            # the same time values handed over as a strided view / a table column (the gaps hold other plausible times)
+            for route, how, safe in (('sim', 'strided', False), ('sim', 'column', True), ('entry', 'column', False), ('entry', 'strided', True)):
+                out.append(dict(spec=sp, grid='nu4', safe=safe, bound=2, kind='run', route=route, times_repr=how))
     # larger than the small alphabets: counts >= 50, 7 species / 8-10 channels, 11 and 33 time points
     for sp in big_networks():
         many = len(sp['reactions']) >= 8
@@ -75,7 +78,7 @@ def check_trace(c, impl, net, cfg, times, ref, x0=None, t0=0.0, first=[False]):
             with Stream([0.3, 0.6, 0.3, 0.6]):
                 py_simulate_model(np.array(times, dtype=float), Model=impl.decoy, stochastic=True, safe=cfg['safe'], return_dataframe=False)
             with Stream(ref['us']) as st:
-                res = py_simulate_model(np.array(times, dtype=float), Model=impl.model, stochastic=True, safe=cfg['safe'], return_dataframe=False)
+                res = py_simulate_model(impl.grid(times), Model=impl.model, stochastic=True, safe=cfg['safe'], return_dataframe=False)
         got = dict(rows=impl.rows(res.py_get_result()), consumed=st.consumed, overrun=st.overrun)
     else:
         got = impl.run_ssa(ref['us'], times, x0, t0, dt=times[1] - times[0])
@@ -84,7 +87,7 @@ def check_trace(c, impl, net, cfg, times, ref, x0=None, t0=0.0, first=[False]):
     bad = e1.compare(ref, got)
     if bad:
         what, msg = bad
-        key = 'C05/%s/%s/%s' % (('entry-' if cfg.get('route') == 'entry' else 'edited-' if cfg.get('route') == 'edited' else '') + ('safe' if cfg['safe'] else 'plain'), cfg['spec']['name'], what)
+        key = 'C05/%s/%s/%s' % (('entry-' if cfg.get('route') == 'entry' else 'edited-' if cfg.get('route') == 'edited' else '') + ('safe' if cfg['safe'] else 'plain'), cfg['spec']['name'], what + ('-grid-as-' + cfg['times_repr'] if cfg.get('times_repr') else ''))
         c.violation(key, msg, dict(cfg=cfg, times=times, us=ref['us'], x0=x0, t0=t0,
                                    ref_rows=ref['rows'], impl_rows=got['rows']))
     return got
@@ -94,6 +97,7 @@ def run_config(c, cfg):
     sp = cfg['spec']
     impl = e1.Impl(sp, cfg['safe'], edited=(cfg.get('route') == 'edited'))
     impl.start_repr = cfg.get('start_repr', 'float')
+    impl.times_repr = cfg.get('times_repr', 'plain')
     net = RS.Net(sp, 'stoch', cfg['safe'])
     states = set()
     outcomes = set()
